@@ -734,8 +734,16 @@ func (p *InlineParser) parseDelimiterRun(state *inlineState, start int) (end int
 		node.span.End++
 	}
 
+	// Flanking is decided within the text of the line:
+	// what lies before it in the source (a block quote marker, a list item's indentation)
+	// is not part of the paragraph, and the beginning of a line counts as whitespace.
+	lineStart := state.unparsed[state.unparsedPos].Span().Start
+	runInLine := Span{
+		Start: node.Span().Start - lineStart,
+		End:   node.Span().End - lineStart,
+	}
 	elem := delimiterStackElement{
-		flags: activeFlag | emphasisFlags(state.source, node.Span()),
+		flags: activeFlag | emphasisFlags(state.source[lineStart:], runInLine),
 		n:     node.Span().Len(),
 		node:  node,
 	}
